@@ -1720,8 +1720,18 @@ MANIFEST = {
             "multi_delta; own correspondence stream): strict_delta_sound (multi_delta is positive and makes every comparison p1 <= p2 of "
             "pairs true for the rationals x + y*delta) and strict_sat_sound_partial (IF a delta-assignment satisfies all constraints "
             "lexicographically THEN x + y*multi_delta satisfies them, strict ones strictly; that the strict solver establishes the "
-            "premise is not proved), the strict Simplex class itself (delta-pairs; Z3 and exact witness evaluation), the "
-            "proof-producing wrappers (checked by theory.check_proof). In addition every answer of the real Simplex is judged per run: "
+            "premise was not proved then); the strict Simplex class IS now modelled too (same tableau, delta-rational values and bounds, "
+            "operations componentwise over the rational model; own step-by-step correspondence stream) with strict_check_sat_sound / "
+            "strict_check_unsat_sound (check(): SAT => both components of mapping satisfy the rows and every variable is within its "
+            "bounds in the delta-order; UNSAT => rows + bounds have no delta-rational solution) and strict_handle_assertion_sat_sound / "
+            "strict_handle_assertion_unsat_sound (the same through handle_assertion, for the asserted atoms). STILL MISSING for a full "
+            "strict_sat_sound / strict_unsat_sound: the link between the atoms and slack rows add_ineqs creates and the given constraints "
+            "for the strict solver (proved for the non-strict one), so strict_sat_sound_partial keeps its name; NOT modelled: the strict "
+            "proof-producing wrapper (its answers: Z3 and exact witness evaluation), the "
+            "proof-producing wrappers and the macros simplex_macro / strict_simplex_macro / integer_simplex (every proof term they return "
+            "is checked by theory.check_proof: concludes false, no gaps, hypotheses literally among the given terms; Z3 confirms the verdict). "
+            "Termination of check under Bland's rule and completeness of the Omega test for exact eliminations were NOT attempted in Lean "
+            "(stated assumptions). In addition every answer of the real Simplex is judged per run: "
             "witnesses go through checkWitness(Q), 'unsatisfiable' answers are certified by checkFarkas whenever Farkas multipliers "
             "can be read from the solver's explanation (internal fields; if not, or if they do not check, the verdict is decided by Z3 - only "
             "a wrong verdict is a violation), branch-and-bound / strict verdicts are compared with Z3 and brute force. OmegaHOL "
